@@ -3,11 +3,12 @@
    No Extract Constant directive is used. *)
 From Coq Require Import ExtrOcamlBasic.
 From Coq Require Import ZArith NArith List.
-From V Require Import Model.Quorum Model.Median Model.ZMap Model.HgImpl.
+From V Require Import Model.Quorum Model.Median Model.ZMap Model.HgImpl Model.Store.
 Extraction Language OCaml.
 Set Extraction KeepSingleton.
 Separate Extraction Z.add Z.mul Z.div Z.modulo Z.opp Z.sub Z.of_nat Z.to_nat Z.of_N Z.to_N Z.eqb Z.ltb Z.leb
   Quorum.sm Quorum.tc Quorum.trusted Quorum.ps_run Quorum.ps_len
   Quorum.super_majority Quorum.trust_count Quorum.keys
   Median.median ZMap.zelements ZMap.zget
-  HgImpl.init_hg HgImpl.insert_and_run HgImpl.process_sigpool HgImpl.known_events HgImpl.run.
+  HgImpl.init_hg HgImpl.insert_and_run HgImpl.process_sigpool HgImpl.known_events HgImpl.run
+  Store.binit Store.bstep Store.brun.
